@@ -40,7 +40,7 @@ def cases(tier, seed):
     w = [WEIGHTS[k] for k in kinds]
     out = []
     for n in gen.corpus():
-        for rep in range(6):
+        for rep in range(30 if len(n["names"]) <= 7 else 6):
             out.append({"net": n, "cls": n["cls"], "mode": "history", "history": [["succ", rng.randrange(256)] for _ in range(rng.randint(8, 24))], "rs": rng.randrange(1 << 30)})
     for n in nets:
         if rng.random() < 0.4:
